@@ -51,6 +51,29 @@ func (r *rec) emit(e Ev) {
 	r.w.Emit(e)
 }
 
+// scen is the recorder handle of one scenario: goroutines of a scenario that
+// got stuck may wake up after it was given up; what they log then is dropped.
+type scen struct {
+	r      *rec
+	closed bool
+}
+
+func (s *scen) emit(e Ev) {
+	s.r.mu.Lock()
+	if s.closed {
+		s.r.mu.Unlock()
+		return
+	}
+	s.r.mu.Unlock()
+	s.r.emit(e)
+}
+
+func (s *scen) close() {
+	s.r.mu.Lock()
+	s.closed = true
+	s.r.mu.Unlock()
+}
+
 func gid() int64 {
 	var buf [64]byte
 	b := buf[:runtime.Stack(buf[:], false)]
@@ -64,7 +87,9 @@ func gid() int64 {
 
 // round runs one stress round; returns false if something got stuck (the
 // process then holds blocked goroutines; the caller stops the run).
-func round(r *rec, posters, per, nestEvery int, budget time.Duration) bool {
+func round(rr *rec, posters, per, nestEvery int, budget time.Duration) bool {
+	r := &scen{r: rr}
+	defer r.close()
 	ioc, err := sonic.NewIO()
 	if err != nil {
 		panic(err)
